@@ -200,10 +200,17 @@ def do_query(cur, q, x):
         cur.integrate("xx'")
 
 
-def execute(ops, seed_key, schedule, qrng, rec, info):
+def execute(ops, seed_key, schedule, qrng, rec, info, scale=None):
     """runs the program; operands are regenerated from seed_key so that all schedules see
-    identical inputs. returns list of per-step snapshots."""
+    identical inputs. returns list of per-step snapshots.
+
+    scale (C18): a scalar multiplied into the start object's information vector / mean; when it
+    is a traced value the whole program is traced (every later quantity depends on it). In that
+    mode nothing is converted to NumPy: the function returns the final read-outs as jax arrays."""
     L = build.lib()
+    traced = scale is not None
+    # index sets are static configuration: NumPy arrays when the program is traced (C18)
+    IX = (lambda a: np.asarray(a, dtype=np.int32)) if traced else JI
     snaps = []
     cur = None
     for step, op in enumerate(ops):
@@ -218,7 +225,12 @@ def execute(ops, seed_key, schedule, qrng, rec, info):
         uf_override = {"C": True, "D": False}.get(schedule)
         kind = op[0]
         if kind == "start":
-            cur, _ = build.mk_measure(op[1], rng, op[2], op[3], kappa=float(rng.choice(gen.KAPPAS[:4])))
+            cur, t0 = build.mk_measure(op[1], rng, op[2], op[3], kappa=float(rng.choice(gen.KAPPAS[:4])))
+            if traced:
+                if op[1].endswith("pdf"):
+                    cur = type(cur)(Sigma=J(t0.Sigma), mu=J(t0.mu) * scale)
+                else:
+                    cur = type(cur)(Lambda=J(t0.Lambda), nu=J(t0.nu) * scale, ln_beta=J(t0.ln_beta))
         elif kind in ("mul", "had"):
             _, fk, R2, uf = op
             uf = uf if uf_override is None else uf_override
@@ -226,7 +238,7 @@ def execute(ops, seed_key, schedule, qrng, rec, info):
             cur = cur.multiply(f, update_full=uf) if kind == "mul" else cur.hadamard(
                 f, update_full=uf)
         elif kind == "slice":
-            cur = cur.slice(JI(op[1]))
+            cur = cur.slice(IX(op[1]))
         elif kind == "product":
             cur = cur.product()
         elif kind == "density":
@@ -234,9 +246,9 @@ def execute(ops, seed_key, schedule, qrng, rec, info):
         elif kind == "normalize":
             cur.normalize()
         elif kind == "marginal":
-            cur = cur.get_marginal(JI(op[1]))
+            cur = cur.get_marginal(IX(op[1]))
         elif kind == "condition":
-            c = cur.condition_on(JI(op[1]))
+            c = cur.condition_on(IX(op[1]))
             xb = gen.vec(rng, 1, len(op[1]))
             cur = c.condition_on_x(J(xb))
         elif kind == "linsum":
@@ -247,7 +259,7 @@ def execute(ops, seed_key, schedule, qrng, rec, info):
             # a diagonal density is updated with a diagonal one (its documented argument type)
             d, _ = build.mk_pdf(rng, 1, cur.D, kappa=10.0,
                                 diag=type(cur).__name__ == "GaussianDiagPDF")
-            cur.update(JI([op[1]]), d)
+            cur.update(IX([op[1]]), d)
         elif kind == "lin":
             _, ck, which, Dy, Rc = op
             c, tc, kw = build.mk_conditional(ck, rng, Rc, Dy, cur.D, kappa=10.0)
@@ -270,13 +282,22 @@ def execute(ops, seed_key, schedule, qrng, rec, info):
                 post = c.affine_conditional_transformation(cur)
                 cur = post.condition_on_x(J(gen.vec(rng, 1, Dy)))
             else:
-                mu = np.asarray(cur.mu if cur.mu is not None else np.zeros((1, cur.D)))
-                xs = mu[:1] + gen.vec(rng, 2, cur.D, scale=0.5)
-                cur = c.condition_on_x(J(xs))
+                if traced:
+                    xs = J(gen.vec(rng, 2, cur.D, scale=0.5))
+                else:
+                    mu = np.asarray(cur.mu if cur.mu is not None else np.zeros((1, cur.D)))
+                    xs = J(mu[:1] + gen.vec(rng, 2, cur.D, scale=0.5))
+                cur = c.condition_on_x(xs)
+        if traced:
+            continue
         if not cur_domain_ok(cur):
             raise Stop(step)
         snaps.append({k: np.asarray(getattr(cur, k), dtype=float)
                       for k in ("Lambda", "nu", "ln_beta")})
+    if traced:
+        d = cur.get_density()
+        return (cur.log_integral(), cur.integrate("x"), cur.integrate("xx'"), d.mu, d.Sigma,
+                d.entropy())
     # final read-outs (these fill caches; CACHE monitors them at the boundary)
     fin = {"log_integral": np.asarray(cur.log_integral()),
            "Ex": np.asarray(cur.integrate("x")),
